@@ -416,9 +416,10 @@ func (p *parser) exitScope() {
 }
 
 func (p *parser) errVal(err ddperror.Error) {
+	// also remembered in panic mode: the Bad nodes built from it take their range from it
+	p.lastError = err
 	if !p.panicMode {
 		p.panicMode = true
-		p.lastError = err
 		p.errorHandler(p.lastError)
 	}
 }
